@@ -63,6 +63,20 @@ CHECKS = {
         technique="TLA+ spec (MHStep) with IEEE operator override + TLC enumeration + trace validation with a hidden variable",
         ref="DESIGN.md section 5, C05",
     ),
+    "C06": dict(
+        text="Invariance.tla proves by exhaustive TLC on finite chains (integer target and proposal weights, discretised "
+             "uniform draw, cross-multiplied exact arithmetic) that a kernel whose acceptance probability is "
+             "min(1, pi(x')q(x|x')/(pi(x)q(x'|x))) under the strict rule is in detailed balance, leaks nothing into "
+             "zero-density states and is stationary (the non-strict rule is refuted). Proposals.tla states the RW / IWLS / "
+             "MH proposal densities and the reported acceptance over IEEE doubles (Gaussian log-pdf with explicit "
+             "determinants, IWLS mean by Cramer's rule, d <= 3). Real kernels behind the wrapping probe run on families "
+             "with analytic gradient and information (Gaussian d=1..3, Poisson-type, two-key product, user-supplied "
+             "chol_info_fn incl. a non-Hessian one, IWLS next to a second kernel that moves what its conditional depends "
+             "on, log-normal MH proposal with declared correction); every transition with a known proposal is validated.",
+        note="Leaves (log pi, gradient, information at x and x') are float64 numpy analytic formulas; float32 kernel vs double spec rtol 3e-3. Rejected RW transitions only when the Gaussian step could be replayed. " + TRUST,
+        technique="TLA+ specs (Invariance, Proposals) + TLC on finite chains + trace validation of wrapped real kernels against IEEE formulas",
+        ref="DESIGN.md section 5, C06",
+    ),
     "C07": dict(
         text="GooseEngine.tla models the engine with one action per critical section (start epoch, end_warmup, "
              "kernel start, chunk begin, per-kernel transition, iteration end, chunk append with thinning, kernel "
